@@ -7,21 +7,25 @@ From Coq Require Import Strings.String.
     - OpEntry: record an entry / annotation (one compare-and-set commit on the log);
     - OpCommitWithEntry: commit a tree to a managed ref, then record the entry for it
       (State.Commit, Attestations.Commit), resetting the ref when the entry cannot be written;
-    - OpSetWithEntry: move a managed ref, then record the entry (Apply, ReconcileStaging). *)
-Inductive opshape := OpEntry | OpCommitWithEntry | OpSetWithEntry.
+    - OpSetWithEntry: move a managed ref, then record the entry (Apply, ReconcileStaging);
+    - OpRebaseWithEntry b: put a managed ref on another base [b], commit a tree on top of it, then
+      record the entry for the result (ReconcileStaging when policy and staging have diverged,
+      [b] being the applied policy), resetting the ref when any later step fails. *)
+Inductive opshape := OpEntry | OpCommitWithEntry | OpSetWithEntry | OpRebaseWithEntry (b : nat).
 
 (** abstract state of the ref the operation manages and of the log *)
 Record ostate := { os_ref : option nat;           (* value of the managed ref *)
                    os_latest : option nat;        (* target of the latest log entry for that ref *)
                    os_entries : nat }.            (* number of log entries *)
 
-Inductive action := ACommitRef | ASetRef | AEntry | AReset | ADelete.
+Inductive action := ACommitRef | ASetRef | AEntry | AReset | ADelete | ASetBase (b : nat).
 
 Definition program (o : opshape) : list action :=
   match o with
   | OpEntry => [AEntry]
   | OpCommitWithEntry => [ACommitRef; AEntry]
   | OpSetWithEntry => [ASetRef; AEntry]
+  | OpRebaseWithEntry b => [ASetBase b; ACommitRef; AEntry]
   end.
 
 (** effect of one successful action; [v] is the new value being installed, [old] the value the ref
@@ -32,6 +36,7 @@ Definition apply_action (v : nat) (old : option nat) (s : ostate) (a : action) :
   | AEntry => {| os_ref := os_ref s; os_latest := Some v; os_entries := S (os_entries s) |}
   | AReset => {| os_ref := old; os_latest := os_latest s; os_entries := os_entries s |}
   | ADelete => {| os_ref := None; os_latest := os_latest s; os_entries := os_entries s |}
+  | ASetBase b => {| os_ref := Some b; os_latest := os_latest s; os_entries := os_entries s |}
   end.
 
 (** the compensation the code runs when the entry cannot be written after the ref has moved
